@@ -137,7 +137,7 @@ theorem update_accept_spec_ts (s s' : St) (m : UpdMsg) (h : apply s (.update m) 
 /-- the full acceptance condition: everything `C01.update_accept_spec` lists (sent by the proposer of
     that moment, current revision, starts right after the latest state, well-formed consistent
     descriptors, DRS version not obsolete, `last` only in a rotation) **and** the timestamp rule -/
-theorem update_accept_spec' (s s' : St) (m : UpdMsg) (h : apply s (.update m) = .ok s') :
+theorem update_accept_spec_full (s s' : St) (m : UpdMsg) (h : apply s (.update m) = .ok s') :
     ∃ r, getRa s m.ra = some r ∧
       r.proposer = some m.sender ∧
       latestRev r = m.rev ∧
